@@ -754,6 +754,12 @@ func (prop) Run(t *testing.T, tape *kernel.Tape, sc kernel.Scenario) *kernel.Res
 		if !slot.AuthzPrincSet || slot.AuthzPrinc != any(thePrincipal) {
 			env.Violate("C14/principal-not-callbacks", sig+":authorizer", "the authorizer saw principal %v, the callback returned %v", slot.AuthzPrinc, thePrincipal)
 		}
+		if code == 200 && slot.HandlerRan == 1 && bodyKind != "none" && bodyDies == 0 {
+			// checking the credential must not cost the handler the form it came in with
+			if got := fmt.Sprint(slot.Bound["field"]); got != "v" {
+				env.Violate("C14/credential-differs", sig+":form-lost-to-the-credential-check", "credential accepted and the handler ran, but its form parameter field=%q (sent \"v\", body kind %s, placements %s)", got, bodyKind, placementClass(ws))
+			}
+		}
 		if (code != 200 || slot.HandlerRan != 1) && bodyDies == 0 { // with the body cut, binding the form parameters legitimately fails
 			env.Violate("C14/status", sig+":accepted", "credential accepted: status %d, handler ran %d", code, slot.HandlerRan)
 		}
